@@ -23,6 +23,9 @@ type Reply struct {
 	Next string `json:"next,omitempty"` // mode after the reply ("" = stay)
 	// NoNL suppresses the line break between a non-empty output and the next prompt.
 	NoNL bool `json:"no_nl,omitempty"`
+	// After is sent right behind the next prompt, in the same breath (an asynchronous console
+	// message that lands after the prompt was drawn)
+	After []Tok `json:"after,omitempty"`
 }
 
 // Mode is one state of the CLI device: what it displays when waiting and how it answers.
@@ -138,6 +141,9 @@ func (d *CLI) Input(b []byte, now time.Duration) []simnet.Seg {
 			}
 		}
 		segs = append(segs, simnet.Seg{B: []byte(d.Modes[d.Cur].Prompt), Delay: d.pause()})
+		if r != nil && len(r.After) > 0 {
+			segs = toks(r.After, segs)
+		}
 	}
 
 	return coalesce(segs)
